@@ -85,6 +85,11 @@ SatDoc(v, c) ==
 
 (* ---- conformance of a value to a declaration ---------------------------------------------------------------------- *)
 PrimName(name) == IF name = "none" THEN "NoneType" ELSE name
+\* could the value be converted to the (contains) type?  Known only for int: numbers, None, text that reads as a number
+\* or boolean word (logged fact dg # <<>> on text values), collections (their first element is taken); other types: unknown, hence possibly
+MayMatch(e, C) == IF C.k = "prim" /\ C.name = "int"
+                    THEN Numeric(e) \/ e.k = "none" \/ (e.k \in {"str", "bytes"} /\ e.dg # <<>>) \/ Container(e) \/ e.k \in {"intx", "floatx", "decx"}
+                  ELSE TRUE
 RECURSIVE Conforms(_, _)
 ArgsConform(v, T) ==
   IF T.args = <<>> THEN TRUE
@@ -103,9 +108,12 @@ Conforms(v, T) ==
                           \A x \in 1..Len(T.cons) : (~T.cons[x].lax =>
                                  SatDoc(IF T.cons[x].c = "max_digits" THEN w ELSE v, T.cons[x]))
                        /\ ArgsConform(v, T)
+                       \* contains counts the elements that *match* the contains type, i.e. that it would accept (references/rule.md);
+                       \* a conforming element certainly matches, an element that could not be converted certainly does not
                        /\ (T.contains # <<>> =>
-                             LET cnt == Cardinality({x \in 1..Len(v.items) : Conforms(v.items[x], T.contains[1])}) IN
-                             cnt >= (IF T.minc < 0 THEN 1 ELSE T.minc) /\ (T.maxc >= 0 => cnt <= T.maxc))
+                             LET sure == Cardinality({x \in 1..Len(v.items) : Conforms(v.items[x], T.contains[1])})
+                                 maybe == Cardinality({x \in 1..Len(v.items) : Conforms(v.items[x], T.contains[1]) \/ MayMatch(v.items[x], T.contains[1])}) IN
+                             maybe >= (IF T.minc < 0 THEN 1 ELSE T.minc) /\ (T.maxc >= 0 => sure <= T.maxc))
     [] T.k \in {"union", "xor"} -> \E x \in 1..Len(T.args) : Conforms(v, T.args[x])
     [] T.k = "and" -> Conforms(v, T.args[Len(T.args)])
     [] T.k = "not" -> ~Conforms(v, T.args[1])
